@@ -1409,3 +1409,74 @@ func sqlClauseRules(p *Prog, c *Check) {
 		c.SQL(p, c.Prop+"-SQL", e[0], e[1], e[2:]...)
 	}
 }
+
+// resolveResult unfolds one wrapper: when t is result #k of a module function all of whose possibly
+// successful returns hand back, as result k, one and the same term over the function's parameters,
+// t is replaced by that term with the call's arguments substituted. resolvesTo repeats it until the
+// predicate holds (up to three levels).
+func (p *Prog) resolveResult(fi *FnInfo, t *Term, depth int) *Term {
+	if t == nil || depth > 3 {
+		return t
+	}
+	ct, idx := t, 0
+	if t.K == TRes && len(t.Sub) == 1 {
+		ct, idx = t.Sub[0], t.Idx
+	}
+	if ct.K != TCall || ct.Callee == nil || !inModule(ct.Callee) || ct.Callee.Blocks == nil {
+		return t
+	}
+	g := ct.Callee
+	gfi := p.Info(g)
+	m := map[string]*Term{}
+	for i, prm := range g.Params {
+		if i < len(ct.Sub) {
+			m[prm.Name()] = ct.Sub[i]
+		}
+	}
+	var res *Term
+	nres := g.Signature.Results().Len()
+	hasErr := nres > 0 && isErrorType(g.Signature.Results().At(nres-1).Type())
+	for _, r := range returnsOf(g) {
+		if idx >= len(r.Results) {
+			return t
+		}
+		if hasErr && gfi.errIsNil(r.Results[nres-1], r, 0) == no {
+			continue
+		}
+		rt := gfi.T(r.Results[idx])
+		// only terms over parameters and calls translate
+		local := false
+		rt.walk(func(x *Term) {
+			switch x.K {
+			case TVar, TPhi, TNew, TOpaque, TFree, TRange:
+				local = true
+			}
+		})
+		if local {
+			return t
+		}
+		st := rt.subst(m)
+		if res != nil && res.s != st.s {
+			return t
+		}
+		res = st
+	}
+	if res == nil {
+		return t
+	}
+	return res
+}
+
+func (p *Prog) resolvesTo(fi *FnInfo, t *Term, pred func(*Term) bool) (*Term, bool) {
+	for d := 0; d < 4; d++ {
+		if pred(t) {
+			return t, true
+		}
+		n := p.resolveResult(fi, t, 0)
+		if n == t || n.s == t.s {
+			return t, false
+		}
+		t = n
+	}
+	return t, false
+}
